@@ -68,7 +68,7 @@ class TriangularLattice(AbstractLattice):
             for s in [-1, 1]:
                 ids = np.roll(idx, s, axis=0)
                 ids = np.roll(ids, s, axis=1)
-                if self.pbc[d]:
+                if self.pbc[d] and self.pbc[d+1]:
                     for (i, j) in zip(idx.reshape(-1), ids.reshape(-1)):
                         # an axis of extent 1 wraps onto the site itself: not a neighbor
                         if i != j:
@@ -76,6 +76,19 @@ class TriangularLattice(AbstractLattice):
                 else:
                     if self.pbc[d+1]:
                         seld = (math.prod(self.shape[:d]), self.shape[d], math.prod(self.shape[d+1:]))
+                        idx_cut = idx.reshape(seld)
+                        ids_cut = ids.reshape(seld)
+                        if s == 1:
+                            idx_cut = idx_cut[:, 1:, :]
+                            ids_cut = ids_cut[:, 1:, :]
+                        elif s == -1:
+                            idx_cut = idx_cut[:, :-1, :]
+                            ids_cut = ids_cut[:, :-1, :]
+                        else:
+                            assert False
+                    elif self.pbc[d]:
+                        # only axis `d+1` is open: single it out
+                        seld = (math.prod(self.shape[:d+1]), self.shape[d+1], math.prod(self.shape[d+2:]))
                         idx_cut = idx.reshape(seld)
                         ids_cut = ids.reshape(seld)
                         if s == 1:
